@@ -123,7 +123,8 @@ CLAIMED = {
             "with-blocks (R2); TraceSession guards/obligations C10:* judge every frame and return (R3).  The environment may change "
             "the target's admission policy between calls (Lifecycle!PolicyChange, Lifecycle_env.cfg; `_env` events), replies may "
             "arrive in small TCP segments with the fault inside a frame, and SLCDriver sessions are part of the histories.",
-            "Trusted: TLC, EipTarget/TraceSession as the reading of the property, the scripted socket.  One fault per scenario; "
+            "Trusted: TLC, EipTarget/TraceSession as the reading of the property, the scripted socket.  At most two faults per history "
+            "(Lifecycle_2f.cfg explores every pair of fault positions for 5 calls); "
             "timing is not modelled.",
             "TLA+ lifecycle design model checked with TLC; TLC-generated histories replayed; recorded sessions validated", "5/C10"),
     "C11": ("session",
